@@ -742,6 +742,7 @@ async fn run_scenario(sc: &Scenario, sink: &Sink) {
     sink.emit(json!({"e":"listening"}));
 
     let mut peers: HashMap<usize, Peer> = HashMap::new();
+    let mut flooders: std::collections::HashSet<usize> = std::collections::HashSet::new();
     let mut ended = false;
 
     for st in &sc.steps {
@@ -908,6 +909,31 @@ async fn run_scenario(sc: &Scenario, sink: &Sink) {
                     }
                 }
             }
+            "flood" => {
+                // requests with large replies that the peer never reads: the session ends up blocked in its write
+                if let Some(p) = peers.get_mut(&st.c) {
+                    sink.emit(json!({"e":"flood","c":st.c}));
+                    let pdu = [3u8, 0, 0, 0, 125];
+                    let mut sent = 0u64;
+                    let mut batch = Vec::new();
+                    for i in 0..400u16 {
+                        let mut f = vec![(i >> 8) as u8, i as u8, 0, 0, 0, 6, st.unit];
+                        f.extend_from_slice(&pdu);
+                        batch.extend_from_slice(&f);
+                    }
+                    loop {
+                        match tokio::time::timeout(Duration::from_millis(300), p.conn.write_all(&batch)).await {
+                            Ok(Ok(())) => sent += 400,
+                            _ => break,
+                        }
+                        if sent > 400_000 {
+                            break;
+                        }
+                    }
+                    sink.emit(json!({"e":"flood_done","c":st.c,"requests_written":sent}));
+                    flooders.insert(st.c);
+                }
+            }
             "close_many" => {
                 // many peers go away in the same instant
                 let mut ids = Vec::new();
@@ -1003,6 +1029,8 @@ async fn run_scenario(sc: &Scenario, sink: &Sink) {
                 ended = true;
                 let mut ids: Vec<usize> = peers.keys().copied().collect();
                 ids.sort();
+                // peers that never read (flooders) are looked at last: reading their backlog would unblock their session
+                ids.sort_by_key(|c| flooders.contains(c));
                 for c in ids {
                     let p = peers.get_mut(&c).unwrap();
                     let (o, n) = peer_view(&mut p.conn, 2000).await;
